@@ -331,7 +331,7 @@ async fn run_mock(stim: &Value, log: &Rec) {
                 for h in m["trailers"].as_array().cloned().unwrap_or_default() { if let (Ok(n), Ok(v)) = (http::header::HeaderName::from_bytes(h["n"].as_str().unwrap_or("").as_bytes()), http::HeaderValue::from_bytes(&json_bytes(&h["v"]))) { t.append(n, v); } }
                 q.push_back(crate::labs::framing::BItem::Trailers(t));
             }
-            let body = crate::labs::framing::ScriptBody { items: q, polls_after_end: Default::default(), ended: false };
+            let body = crate::labs::framing::ScriptBody { items: q, polls_after_end: Default::default(), ended: false, fused: false };
             let mut b = http::Response::builder().status(m["status"].as_u64().unwrap_or(200) as u16);
             for h in m["headers"].as_array().cloned().unwrap_or_default() { if let (Ok(n), Ok(v)) = (http::header::HeaderName::from_bytes(h["n"].as_str().unwrap_or("").as_bytes()), http::HeaderValue::from_bytes(&json_bytes(&h["v"]))) { b = b.header(n, v); } }
             Ok::<_, BoxErr>(b.body(Body::new(body)).unwrap())
